@@ -3,34 +3,7 @@ From Coq Require Import List Arith ZArith Bool Lia Permutation.
 From SFV Require Import C19.Similarity C19.Clique C19.CliqueProofs C19.Subgraph C19.SubgraphProofs.
 Import ListNotations.
 
-(* with self-loops ignored the edge-count test is exact on every graph (no irreflexivity needed) *)
-Lemma noloop_sym adj : (forall u v, adj u v = adj v u) -> forall u v, noloop adj u v = noloop adj v u.
-Proof.
-  intros H u v. unfold noloop. rewrite (H u v). f_equal. f_equal.
-  destruct (u =? v) eqn:E1, (v =? u) eqn:E2; auto.
-  - apply Nat.eqb_eq in E1. subst. rewrite Nat.eqb_refl in E2. discriminate.
-  - apply Nat.eqb_eq in E2. subst. rewrite Nat.eqb_refl in E1. discriminate.
-Qed.
-
-Lemma noloop_irrefl adj u : noloop adj u u = false.
-Proof. unfold noloop. rewrite Nat.eqb_refl. apply andb_false_r. Qed.
-
-Lemma clique_set_noloop adj l : clique_set (noloop adj) l <-> clique_set adj l.
-Proof.
-  unfold clique_set, noloop. split; intros H u v Hu Hv Hne.
-  - specialize (H u v Hu Hv Hne). apply andb_true_iff in H. tauto.
-  - rewrite (H u v Hu Hv Hne). apply Nat.eqb_neq in Hne. rewrite Hne. reflexivity.
-Qed.
-
-Theorem is_clique_noloop_spec adj l :
-  (forall u v, adj u v = adj v u) -> NoDup l ->
-  (is_clique (noloop adj) l = true <-> clique_set adj l).
-Proof.
-  intros Hs Hn. rewrite <- clique_set_noloop.
-  apply is_clique_spec; auto using noloop_sym, noloop_irrefl.
-Qed.
-
-(* without node weights the source as it stands and the documented rule coincide *)
+(* without node weights the old (pre-5c60841) variant and the source coincide *)
 Lemma shrink_index_uniform adj nodes tbl d :
   shrink_index adj nodes false Uniform tbl d = shrink_index adj nodes true Uniform tbl d.
 Proof. reflexivity. Qed.
@@ -60,6 +33,28 @@ Proof.
   assert (H' : grow_index adj nodes true s sub compl d = Some i).
   { destruct s; try exact H. exfalso. eapply Hs. reflexivity. }
   destruct (grow_index_rule adj nodes s sub compl d i Ht H') as [A [B _]]. auto.
+Qed.
+
+(* ---------- clique.search ---------- *)
+Theorem csearch_sound adj nodes : (forall u v, adj u v = adj v u) ->
+  forall iters s clique draws r, csearch adj nodes iters s clique draws = Ok r ->
+  clique_set adj r /\ (forall x, In x r -> In x nodes) /\ NoDup r /\ length (dedup clique) <= length r.
+Proof.
+  intros Hs. induction iters as [|i IH]; intros s clique draws r H; [discriminate|].
+  simpl in H. destruct (grow adj nodes s clique draws) as [g| | | |] eqn:G; try discriminate.
+  destruct (grow_sound adj Hs nodes s clique draws g G) as [_ [Gin [_ [Gnd _]]]].
+  set (dr := skipn (length g - length (dedup clique)) draws) in *.
+  destruct (swap adj nodes s g dr) as [sw| | | |] eqn:W; try discriminate.
+  destruct (swap_sound adj Hs nodes s g dr sw W) as [Wc [Wl [Wn Wnd]]].
+  assert (L1 : length (dedup clique) <= length sw).
+  { rewrite Wl. apply NoDup_incl_length; [apply dedup_NoDup|].
+    intros x Hx. apply (proj2 (dedup_In _ _)). apply Gin. apply (proj1 (dedup_In _ _)). exact Hx. }
+  destruct (leqb g sw || (i =? 0)).
+  - injection H as <-. auto.
+  - apply IH in H. destruct H as [A [B [C D]]]. repeat split; auto.
+    assert (L2 : length sw <= length (dedup sw)).
+    { apply NoDup_incl_length; auto. intros x Hx. apply (proj2 (dedup_In _ _)). exact Hx. }
+    lia.
 Qed.
 
 (* ---------- sample.py ---------- *)
